@@ -226,6 +226,34 @@ func c03Case(c *core.Case) {
 			return
 		}
 		c.Count("content-agreed")
+		// a sequence of calls: what one partial extraction consumed is gone for the
+		// next call, in both syntaxes alike (a required argument is then missing)
+		if attrs := body.Attrs(); len(attrs) > 0 {
+			x := attrs[0].Name
+			s1 := &hcl.BodySchema{Attributes: []hcl.AttributeSchema{{Name: x}}}
+			s2 := schemaFor(body, labelCounts)
+			for i := range s2.Attributes {
+				if s2.Attributes[i].Name == x {
+					s2.Attributes[i].Required = true
+				}
+			}
+			seq := func(b hcl.Body) (bool, bool) {
+				_, rem, d1 := b.PartialContent(s1)
+				if d1.HasErrors() || rem == nil {
+					return false, false
+				}
+				_, d2 := rem.Content(s2)
+				return d2.HasErrors(), true
+			}
+			nE, nOK := seq(nf.Body)
+			jE, jOK := seq(jf.Body)
+			c.Evals(2)
+			if nOK && jOK && nE != jE {
+				c.Violation("call-sequence-differs/consumed-required-argument", fmt.Sprintf("PartialContent({%s}) then Content on the remainder with %q required: native errors=%v, JSON errors=%v", x, x, nE, jE), nil)
+				return
+			}
+			c.Count("call-sequences-agreed")
+		}
 		jval, jdiags := hcldec.Decode(jf.Body, spec, ctx)
 		c.Evals(1)
 		if ndiags.HasErrors() != jdiags.HasErrors() {
